@@ -28,11 +28,43 @@ type c12Slot struct {
 }
 
 var c12Modes = []string{"compiled x shared document", "compiled x per-goroutine documents", "one-shot Search x shared document", "concurrent Compile/MustCompile", "NewParser per goroutine",
-	"compiled x shared Go-struct document", "one-shot Search x shared Go-struct document"}
+	"compiled x shared Go-struct document", "one-shot Search x shared Go-struct document", "one-shot Search x many distinct expressions in rotation"}
+
+func gcd(a, b int) int {
+	for b != 0 {
+		a, b = b, a%b
+	}
+	return a
+}
 
 func c12Exprs(seed uint64) []*gen.Expr {
 	base := c06BaseDoc()
 	var trees []*gen.Expr
+	// deep and long expressions first (every mode meets them early): whatever a call keeps per expression
+	// depth or length (counters, stacks, scratch buffers) must be per call, not per compiled expression
+	{
+		term := func(k int) *gen.Expr { return gen.Cmp("==", gen.Field("i"), gen.LitJSON(fmt.Sprint(k*3))) }
+		or, and, pipe := term(0), gen.Cmp("!=", gen.Field("i"), gen.LitJSON("1")), gen.Field("o")
+		var not *gen.Expr = gen.Field("z")
+		var nest *gen.Expr = gen.Field("n")
+		var steps []gen.Step
+		for k := 1; k < 260; k++ {
+			or = gen.Or(or, term(k))
+			and = gen.And(and, gen.Cmp("!=", gen.Field("i"), gen.LitJSON(fmt.Sprint(1000+k))))
+			pipe = gen.Pipe(pipe, gen.Current())
+			not = gen.Not(not)
+			nest = gen.MultiList(nest)
+			steps = append(steps, gen.StIndex(0))
+		}
+		trees = append(trees,
+			gen.Chain(gen.Field("big"), gen.StFilter(or), gen.StField("i")),
+			gen.Chain(gen.Field("big"), gen.StFilter(and), gen.StField("i")),
+			gen.Chain(gen.Field("big"), gen.StListStar(), gen.StMultiList(pipe)),
+			gen.MultiList(not, gen.Chain(gen.Field("big"), gen.StFilter(gen.Not(not)), gen.StField("i"))),
+			gen.Chain(gen.Paren(nest), steps...),
+			gen.Func("map", gen.ExpRef(or), gen.Field("big")),
+		)
+	}
 	for _, lit := range []bool{false, true} {
 		for _, c := range c06Calls(lit, base) {
 			ns := c06Nestings(c)
@@ -65,8 +97,8 @@ func c12Exprs(seed uint64) []*gen.Expr {
 }
 
 func c12(r *mon.Run) {
-	r.Rule = "rounds of N in {2,4,16} goroutines released together (GOMAXPROCS 2 and 16), with no synchronisation between them until they are joined: (a) one compiled expression on one shared document, (b) one compiled expression on per-goroutine documents, (c) the one-shot Search on a shared document, (d) concurrent Compile / MustCompile of the same and of different expressions, (e) NewParser per goroutine, (f) a freshly compiled expression and (g) the one-shot Search on a shared Go-struct document (reflection paths; the first calls on a type are the concurrent ones); " +
-		"expressions: the function matrix of C06 with document-fed and literal-fed arguments (literals live in the shared AST), sorts of sorts, raw-string-heavy expressions, every node kind, seeded random trees. Monitors: the race detector (any report with a library frame), every goroutine's result against the reference model's allowed set, the compiled AST before/after, and the process surviving (fatal errors are seen by the driver). " +
+	r.Rule = "rounds of N in {2,4,16} goroutines released together (GOMAXPROCS 2 and 16), with no synchronisation between them until they are joined: (a) one compiled expression on one shared document, (b) one compiled expression on per-goroutine documents, (c) the one-shot Search on a shared document, (d) concurrent Compile / MustCompile of the same and of different expressions, (e) NewParser per goroutine, (f) a freshly compiled expression and (g) the one-shot Search on a shared Go-struct document (reflection paths; the first calls on a type are the concurrent ones), (h) the one-shot Search with 70 / 140 / 300 distinct expressions in rotation, every goroutine in its own order (package-level caches see hits, misses and evictions at once); " +
+		"expressions: the function matrix of C06 with document-fed and literal-fed arguments (literals live in the shared AST), sorts of sorts, six expressions 260 operators deep or long (|| and && chains as filter conditions over 24 elements, pipes, nots, nested multi-selects), raw-string-heavy expressions, every node kind, seeded random trees. Monitors: the race detector (any report with a library frame), every goroutine's result against the reference model's allowed set, the compiled AST before/after, and the process surviving (fatal errors are seen by the driver). " +
 		"Non-trivial = distinct (mode, N, expression) rounds whose calls really overlapped in time (measured from per-goroutine timestamps)."
 	r.Floor = 200
 	r.Assumptions = []string{"the race detector is happens-before based: one observed pair of conflicting accesses stands for all its interleavings; only code the workload executes is observed",
@@ -97,7 +129,7 @@ func c12(r *mon.Run) {
 			}
 			var sdoc interface{} // Go-struct form for modes 5 and 6 (reflection paths, per-type state)
 			lower := false
-			if mode >= 5 {
+			if mode == 5 || mode == 6 {
 				lower = rng.Bool()
 				sdoc = docs.StructDoc(rng, rng.Intn(4))
 				g := &navGen{r: rng, lower: lower}
@@ -119,6 +151,29 @@ func c12(r *mon.Run) {
 				pdocs[k] = withSpare(doc)
 			}
 			otherExpr := gen.Spell(trees[(i*31+7)%len(trees)])
+			// mode 7: a window of W distinct expressions, each goroutine visits all of them in its own order
+			var wexprs []string
+			var wres []ref.Result
+			var wout [][]mon.Observed
+			if mode == 7 {
+				W := []int{70, 140, 300}[(i/len(c12Modes))%3]
+				start := (i / len(c12Modes)) * 37
+				seen := map[string]bool{}
+				for j := 0; len(wexprs) < W && j < len(trees); j++ {
+					tr := trees[(start+j)%len(trees)]
+					e := gen.Spell(tr)
+					if seen[e] {
+						continue
+					}
+					seen[e] = true
+					wexprs = append(wexprs, e)
+					wres = append(wres, ref.RefSet(tr, doc, gen.Quirks{}))
+				}
+				wout = make([][]mon.Observed, N)
+				for k := range wout {
+					wout[k] = make([]mon.Observed, len(wexprs))
+				}
+			}
 			var wg sync.WaitGroup
 			gate := make(chan struct{})
 			for k := 0; k < N; k++ {
@@ -157,6 +212,16 @@ func c12(r *mon.Run) {
 							}
 							return nil, nil
 						})
+					case 7:
+						W := len(wexprs)
+						stride := []int{1, 3, 7, 11, 13, 17, 19, 23}[k%8]
+						for gcd(W, stride) != 1 {
+							stride++
+						}
+						for j := 0; j < W; j++ {
+							idx := (j*stride + k*5) % W
+							wout[k][idx] = apiSearch(wexprs[idx], shared)
+						}
 					case 5:
 						s.o = apiJP(jp, sdoc)
 					case 6:
@@ -177,7 +242,7 @@ func c12(r *mon.Run) {
 			}
 			close(gate)
 			wg.Wait()
-			t.Evals(N)
+			t.Evals(N * (1 + len(wexprs)))
 			// monitors
 			rep := rl.Grown()
 			if rep != "" {
@@ -198,6 +263,14 @@ func c12(r *mon.Run) {
 					return
 				}
 				switch mode {
+				case 7:
+					for idx, o := range wout[k] {
+						if o.Panicked || (wres[idx].Skipped == "" && !wres[idx].DontCare && !matches(wres[idx], o)) {
+							r.Violate(&mon.Violation{Workload: "rounds", Index: i, API: c12Modes[mode], Expr: wexprs[idx], Doc: doc, Expected: "what the same call returns when made alone: " + expectedString(wres[idx]),
+								Observed: fmt.Sprintf("goroutine %d of %d, one of %d expressions in rotation: %s", k, N, len(wexprs), o.String()), Class: "concurrent one-shot Search over many expressions: result differs"})
+							return
+						}
+					}
 				case 5, 6:
 					so := s.o
 					if so.Err == nil {
@@ -236,7 +309,7 @@ func c12(r *mon.Run) {
 				r.Violate(&mon.Violation{Workload: "rounds", Index: i, API: c12Modes[mode], Expr: expr, Doc: doc, Expected: "shared compiled expression unchanged: " + before, Observed: after, Class: "shared AST modified"})
 				return
 			}
-			if mode == 0 || mode == 2 {
+			if mode == 0 || mode == 2 || mode == 7 {
 				if mon.Snapshot(shared) != mon.Snapshot(withSpare(doc)) {
 					r.Violate(&mon.Violation{Workload: "rounds", Index: i, API: c12Modes[mode], Expr: expr, Doc: doc, Expected: "shared document unchanged", Observed: mon.Show(shared), Class: "shared document modified"})
 					return
